@@ -245,8 +245,16 @@ def install():
         def d(tr, a, kw, ret, err):
             return {"op": "setv", "k": "", "a": [T(tr, a[0]), ("int", i), T(tr, a[1])], "b": []}
         return d
-    TwoEndedLink._set_v1 = toplevel(d_setv(1))(TwoEndedLink._set_v1)
-    TwoEndedLink._set_v2 = toplevel(d_setv(2))(TwoEndedLink._set_v2)
+    if hasattr(TwoEndedLink, "_set_v1") and hasattr(TwoEndedLink, "_set_v2"):
+        TwoEndedLink._set_v1 = toplevel(d_setv(1))(TwoEndedLink._set_v1)
+        TwoEndedLink._set_v2 = toplevel(d_setv(2))(TwoEndedLink._set_v2)
+    else:       # private helpers renamed: wrap the public properties of every class that defines them
+        from edgegraph.structure import DirectedEdge, UnDirectedEdge
+        for cls in (TwoEndedLink, DirectedEdge, UnDirectedEdge):
+            for i, nm in ((1, "v1"), (2, "v2")):
+                prop = cls.__dict__.get(nm)
+                if isinstance(prop, property) and prop.fset is not None:
+                    setattr(cls, nm, property(prop.fget, toplevel(d_setv(i))(prop.fset)))
 
     # property setters
     laws_prop = Universe.laws
